@@ -41,7 +41,7 @@ def run_case(data):
             break
         usable = sorted(s for s in m.streams if s not in w.tainted)
         op = ch.weighted([(8, 'open-local'), (8, 'open-peer'), (4, 'local-end'), (4, 'peer-end'), (3, 'respond'),
-                          (2, 'peer-limit'), (2, 'local-limit'), (2, 'local-ack'), (3, 'query')])
+                          (2, 'peer-limit'), (2, 'local-limit'), (2, 'local-ack'), (3, 'query'), (2, 'wu-overflow')])
         if op == 'open-local':
             if client:
                 w.send_headers(w.next_local_id(), 'final', ch.chance(48))
@@ -91,6 +91,13 @@ def run_case(data):
                 w.recv_data(sid, True)
             else:
                 w.recv_rst(sid)
+        elif op == 'wu-overflow':
+            # one more way for a stream to close: the library itself resets it (stream error)
+            cands = [s for s in usable if m.get(s).live() and M.ACCEPT in m.recv_window_update_verdict(s)]
+            if not cands:
+                continue
+            w.recv_window_update_overflow(ch.pick(cands))
+            r.labels.add('closed-by-stream-error')
         elif op == 'peer-limit':
             v = ch.pick(LIMITS)
             o = w.s.feed(wire.settings([(wire.S_MAX_CONCURRENT_STREAMS, v)]))
